@@ -557,25 +557,31 @@ Definition parse_secaction (data : bytes) : option rule_desc :=
 (* ------------------------------------------------------------------------------------ *)
 (* line assembly: parseString / evaluateLine / Include                                  *)
 (* ------------------------------------------------------------------------------------ *)
+(* linear-time list reversal (equal to rev, see ParserProofs.p_rev_eq) *)
+Definition p_rev (l : bytes) : bytes := rev_append l [].
+
 Definition p_drop_cr (l : bytes) : bytes :=
-  match rev l with c :: r => if c =? cCR then rev r else l | [] => l end.
+  match p_rev l with c :: r => if c =? cCR then p_rev r else l | [] => l end.
 
 (* bufio.ScanLines *)
 Fixpoint split_lines_aux (s : bytes) (cur : bytes) : list bytes :=
   match s with
-  | [] => match cur with [] => [] | _ => [p_drop_cr (rev cur)] end
-  | c :: r => if c =? cLF then p_drop_cr (rev cur) :: split_lines_aux r []
+  | [] => match cur with [] => [] | _ => [p_drop_cr (p_rev cur)] end
+  | c :: r => if c =? cLF then p_drop_cr (p_rev cur) :: split_lines_aux r []
               else split_lines_aux r (c :: cur)
   end.
 Definition split_lines (s : bytes) : list bytes := split_lines_aux s [].
 
-(* bufio.Scanner stops (its error is never looked at) at a line that does not fit its 64 KiB buffer *)
+(* bufio.Scanner stops at a line that does not fit its 64 KiB buffer (bufio.ErrTooLong): the lines
+   before it are delivered, then scanner.Err() is returned by parseString (since the repair F54) *)
 Definition max_line : N := 65536.
+Definition line_fits (l : bytes) : bool := N.of_nat (List.length l) <? max_line.
 Fixpoint scanner_lines (ls : list bytes) : list bytes :=
   match ls with
   | [] => []
-  | l :: r => if N.of_nat (List.length l) <? max_line then l :: scanner_lines r else []
+  | l :: r => if line_fits l then l :: scanner_lines r else []
   end.
+Definition scanner_truncated (ls : list bytes) : bool := negb (forallb line_fits ls).
 
 Local Open Scope string_scope.
 Definition d_secrule : bytes := str "secrule".
@@ -613,7 +619,8 @@ Definition evaluate_line (l : bytes) : line_kind :=
 Fixpoint ps_loop (ev : gstate -> bytes -> option gstate)
          (lines : list bytes) (buf : bytes) (inbt : bool) (g : gstate) : option gstate :=
   match lines with
-  | [] => if inbt then None else Some g
+  | [] => if inbt then None                      (* backticks left open *)
+          else match buf with [] => Some g | _ => None end   (* continuation at the end (F55) *)
   | raw :: rest =>
     let line := p_trim_space raw in
     match line with
@@ -639,7 +646,8 @@ Fixpoint parse_string (fuel : nat) (files : list (bytes * bytes)) (g : gstate) (
   match fuel with
   | O => None
   | S f =>
-    ps_loop (fun g l =>
+    let ls := split_lines text in
+    match ps_loop (fun g l =>
                match evaluate_line l with
                | LError => None
                | LRule d => Some (mk_g (g_inc g) (d :: g_rules g))
@@ -650,7 +658,10 @@ Fixpoint parse_string (fuel : nat) (files : list (bytes * bytes)) (g : gstate) (
                       | Some content => parse_string f files (mk_g (g_inc g + 1) (g_rules g)) content
                       end
                end)
-            (scanner_lines (split_lines text)) [] false g
+            (scanner_lines ls) [] false g with
+    | None => None
+    | Some g' => if scanner_truncated ls then None else Some g'   (* scanner.Err() (F54) *)
+    end
   end.
 
 Definition include_fuel : nat := 102.
